@@ -50,11 +50,15 @@ def msig(m):
 
 
 # argument pool: (driver arg spec, Gallina argv)
+BAD_ADDRS = ["0x1234", "0x", "0x123", "1234", "0x" + "ab" * 19, "0x" + "ab" * 21, "0X" + "ab" * 20]
+
+
 def arg_pool(r):
     big = "x" * r.choice([1, 100, 20000])
     return {
         "KStr": [(["s", ""], "AStr"), (["s", "a"], "AStr"), (["s", big], "AStr"), (["s", "1356:chainA:svc1"], "AStr"), (["s", "a:b"], "AStr"),
-                 (["s", "::"], "AStr"), (["s", "0x0000000000000000000000000000000000000001"], "AStr"), (["s", "{\"a\":1}"], "AStr")],
+                 (["s", "::"], "AStr"), (["s", "0x0000000000000000000000000000000000000001"], "AStr"), (["s", "{\"a\":1}"], "AStr")] +
+                [(["s", b], "AStr") for b in BAD_ADDRS] + [(["s", "1356:chainA:swap,v2"], "AStr"), (["s", "a,b-c:d"], "AStr")],
         "KBytes": [(["b", ""], "ABytes"), (["b", "ff00ff"], "ABytes"), (["bs", big], "ABytes"), (["ibtp", X.ibtp(1)], "ABytes"), (["ibtp", X.ibtp(0, frm="a:b", to="")], "ABytes")],
         "KU64": [(["u64", "0"], "(AU64 true)"), (["u64", "18446744073709551615"], "(AU64 true)"), (["u64", "-1"], "(AU64 false)"), (["u64", "abc"], "(AU64 false)"),
                  (["u64", "18446744073709551616"], "(AU64 false)")],
@@ -156,6 +160,8 @@ def ibtp_ops(r, frm, poor):
     mut = [dict(frm="a:b"), dict(frm=""), dict(to="::"), dict(to="x" * 5000 + ":a:b"), dict(index=0), dict(index=2**64 - 1), dict(typ=99), dict(typ=4),
            dict(timeout=-2**63), dict(timeout=2**63 - 1), dict(payload="ffff"), dict(group=["a", "b"]), dict(extra="00" * 3000),
            dict(frm="9999:chainZ:svc"), dict(to="1356:chainQ:nosuch"), dict(frm="1356:chainA:svc1:extra"),
+           # registered services whose ids contain the separators of the timeout lists / IBTP ids, with short timeouts
+           dict(frm="1356:chainA:swap,v2", timeout=1, index=1), dict(frm="1356:chainA:a-b", timeout=2, index=1), dict(to="1356:chainB:b,c", timeout=1),
            # verified proofs whose handling makes the interchain contract panic (nil service / missing records): recovered by HandleIBTP
            dict(typ=1, frm="1356:chainA:nosuch"), dict(typ=2, frm="1356:chainA:nosuch"), dict(typ=1), dict(typ=3, frm="1356:chainB:nosuch", to="1356:chainA:svc1")]
     for mu in r.sample(mut, 8):
@@ -184,6 +190,9 @@ SEED = list(X.SEED2) + [{"op": "seed_chain", "chain": "chainF", "rule": "fabric"
                         {"op": "seed_chain", "chain": "chainW", "rule": X.RULE_WASM_ADDR}, {"op": "set_wasm_rule", "acct": "x:" + X.RULE_WASM_ADDR, "hex": X.WASM_FIRSTBYTE},
                         {"op": "seed_chain", "chain": "chainX", "rule": X.RULE_NIL_ADDR}, {"op": "set_wasm_rule", "acct": "x:" + X.RULE_NIL_ADDR, "hex": "00112233"},
                         {"op": "seed_service", "chain": "chainW", "svc": "svc1", "ordered": True},
+                        {"op": "seed_service", "chain": "chainA", "svc": "swap,v2", "ordered": True}, {"op": "seed_service", "chain": "chainA", "svc": "a-b", "ordered": True},
+                        {"op": "seed_service", "chain": "chainB", "svc": "b,c", "ordered": True},
+                        {"op": "seed_appchain_admin", "chain": "chainA", "acct": "u:5"}, {"op": "fund", "acct": "u:5", "amt": "1000000000000"},
                         {"op": "fund", "acct": "u:0", "amt": "1000000000000"}, {"op": "fund", "acct": "u:1", "amt": "1"}]
 
 
@@ -237,6 +246,34 @@ def corpus(surface):
                 ops.append(dict(tx={"t": "bvm", "from": "u:0", "to": "c:store", "m": "Set", "args": [["s", "k%d" % i], ["s", "v1"]]},
                                 dtx=dtx("PfNotIbtp", True, "(BBvm (BcCall {| ms_params := [KStr; KStr]; ms_variadic := false; ms_response := true; ms_promoted := None |} [AStr; AStr] BOk false))", True), tag="store_set"))
         out.append(h(ops, proof="parallel"))
+    # address ARGUMENTS that are valid hex but not 20 bytes (or empty / odd / unprefixed): they pass the contracts'
+    # HexDecodeString format checks and reach Stub.GetAccount, where NewAddressByStr yields nil and the ledger panics
+    # under the bolt VM's recover - a FAILED receipt, and the ledger must stay usable for the fee and for the next tx
+    S = lambda v: ["s", v]
+
+    def call(frm, c, mname, args, fee_ok=True):
+        m = [x for x in surface.get(c, []) if x["name"] == mname]
+        sig = msig(m[0]) if m else "{| ms_params := %s; ms_variadic := false; ms_response := true; ms_promoted := None |}" % glist(["KStr"] * len(args))
+        gv = glist(["ABytes" if a[0] in ("b", "bs") else "AStr" for a in args])
+        return dict(tx={"t": "bvm", "from": frm, "to": "c:" + c, "m": mname, "args": args},
+                    dtx=dtx("PfNotIbtp", True, "(BBvm (BcCall %s %s BUnknown false))" % (sig, gv), fee_ok), tag="malformed_address_arg")
+    for bad in BAD_ADDRS:
+        ops = [call("u:5", "rule", "RegisterRule", [S("chainA"), S(bad), S("url")]),
+               fill(0),
+               call("u:5", "rule", "UpdateMasterRule", [S("chainA"), S(bad), S("r")]),
+               call("u:0", "appchain", "RegisterAppchain", [S("chainQ"), S("nameQ"), ["b", "00"], S("ETH"), ["b", "00"], S("0xbroker"), S("d"), S(bad), S("url"), ["sa", "u:0"], S("r")]),
+               call("u:0", "dapp", "RegisterDapp", [S("dappQ"), S("tool"), S("d"), S("url"), S(bad), S(""), S("r")]),
+               fill(1)]
+        out.append(h(ops, gas=1, deadline_ms=6000))
+    # malformed service identifiers: ids are free-form, the timeout lists are comma-joined and an IBTP id is from-to-index.
+    # An ACCEPTED request with a timeout whose service ids contain ',' / '-' / ':' and then more blocks than the timeout:
+    # whatever the executor's block post-processing makes of the list entry, the node must go on committing blocks
+    for svc, dst, tmo in (("swap,v2", "svc1", 2), ("svc1", "b,c", 1), ("a-b", "svc1", 2), (",", "svc1", 1), ("a,b,c-d", "e,f", 2), ("x-1356:chainB:svc1-1,y", "svc1", 1)):
+        pre = SEED + [{"op": "seed_service", "chain": "chainA", "svc": svc, "ordered": True}, {"op": "seed_service", "chain": "chainB", "svc": dst, "ordered": True}]
+        blocks = [[dict(tx={"t": "ibtp", "from": "u:0", "ibtp": X.ibtp(1, frm="1356:chainA:" + svc, to="1356:chainB:" + dst, timeout=tmo)},
+                        dtx=dtx("PfVerified", True, "(BIbtp BUnknown)", True), tag="ibtp_malformed_service_id")]]
+        blocks += [[fill(i)] for i in range(tmo + 2)]
+        out.append(dict(cfg=dict(admins=4, gas=0, audit=False, bal="1000000000000000", proof=""), pre=pre, blocks=blocks, blk_kw={}))
     # bad signatures in a non-local block
     out.append(h([dict(tx={"t": "bvm", "from": "u:0", "to": "c:store", "m": "Set", "args": [["s", "k1"], ["s", "v1"]], "mut": {"bad_sig": 1}},
                        dtx=dtx("PfNotIbtp", False, "(BBvm BcUnknownMethod)", True), tag="bad_signature")], local=False))
